@@ -583,5 +583,9 @@ fn run(t: &[&str]) -> String {
 }
 
 fn main() {
+    // anyhow captures a backtrace per error value when RUST_BACKTRACE is set: ~5 ms per Err answer
+    if std::env::var("VERIF_PANIC_VERBOSE").is_err() {
+        std::env::set_var("RUST_LIB_BACKTRACE", "0");
+    }
     runner::main_loop(run);
 }
